@@ -14,7 +14,8 @@ RULE = ('the REAL CVise.reduce (shim-driven) in a scratch working directory hold
         'untouched pre-existing .orig (older than, as old as and newer than the test case), nothing else changed but test cases and cvise_bug_*/cvise_extra_*, modes restored after '
         'completed passes, cwd unchanged; the writes observed (commits, restores, reports) are replayed through the Coq Fs '
         'model and its final directory compared with the real one; non-trivial = distinct scenarios with >= 1 commit'
-        ' Also: real LinesPass with a formatter that cannot be executed / prints non-text / exits non-zero / is missing: nothing new may appear in the working directory, also on the error exit; an empty member of a multi-file set.')
+        ' Also: real LinesPass with a formatter that cannot be executed / prints non-text / exits non-zero / is missing: nothing new may appear in the working directory, also on the error exit; an empty member of a multi-file set.'
+        ' Also (rounds 4-5): --skip-initial-passes, --save-temps, error exits inside the initial sanity check (the test cannot be started): cwd recorded the moment the code returns.')
 TRUSTED = ['hand-written model coq/Fs/Fs.v tied to cvise/utils/testing.py (backup_test_cases, process_result, restore_mode, report dirs) by this correspondence run',
            'shutil.copy/copy2/move, tempfile semantics as documented (the model mirrors them)']
 ASSUMPTIONS = ['--tidy and --to-utf8 are outside (requested rewrites); temp files LinesPass.__format creates in the working directory are removed inside new()']
